@@ -113,7 +113,15 @@ func (rn *runner) GenOp(r *vh.Rand, i int) string {
 		}
 		return fmt.Sprintf("idle %d %d %d %d %d %d %d %d", lr, fae, dur(r), kap, dur(r), b01(r.Chance(25)), dur(r)/50, r.Range(0, 50)*int64(time.Millisecond))
 	case 1:
-		return fmt.Sprintf("nego %d %d %d", dur(r), dur(r), dur(r))
+		// local value 0 = "use the default", peer value 0 = the peer's transport parameters omit max_idle_timeout
+		l, pr := dur(r), dur(r)
+		if r.Chance(25) {
+			l = 0
+		}
+		if r.Chance(35) {
+			pr = 0
+		}
+		return fmt.Sprintf("nego %d %d %d", l, pr, dur(r))
 	case 2: // timer, offsets relative to now
 		lr := -r.Range(0, 3_000_000_000)
 		if r.Chance(15) {
